@@ -415,3 +415,61 @@ Proof.
     pose proof (do_creates_code e (opt_list (f_log_file f)) (exec pl e) (exec_code pl e)) as Hc.
     destruct Hc as [Hc|Hc]; rewrite Hc; discriminate.
 Qed.
+
+(* ------------------------------------------------------------------ which diagnostic, and how many *)
+Definition count_diag (tr : list event) : nat := length (filter is_diag tr).
+
+Lemma io_exit_one_diag : forall r, (count_diag (fst (io_exit r)) <= 1)%nat.
+Proof. destruct r; cbn; auto. Qed.
+Lemma do_creates_one_diag : forall e ps k, (count_diag (fst k) <= 1)%nat -> (count_diag (fst (do_creates e ps k)) <= 1)%nat.
+Proof.
+  induction ps as [|p ps IH]; intros k Hk; [exact Hk|]. cbn.
+  destruct (e_create e p); [specialize (IH k Hk); destruct (do_creates e ps k); exact IH| |]; cbn; auto.
+Qed.
+Lemma do_writes_one_diag : forall e ws, (count_diag (fst (do_writes e ws)) <= 1)%nat.
+Proof.
+  induction ws as [|[w r] ws IH]; [cbn; auto|]. cbn.
+  destruct (e_write e w r); [destruct (do_writes e ws); exact IH| |]; cbn; auto.
+Qed.
+Lemma at_most_one_diagnostic : forall f e, (count_diag (fst (run f e)) <= 1)%nat.
+Proof.
+  intros f e. unfold run. destruct (decide f) as [r| |p].
+  - destruct r; [cbn; auto| |]; apply do_creates_one_diag; cbn; auto.
+  - apply do_creates_one_diag. destruct (e_write e Stdout HelpDoc); cbn; auto.
+  - apply do_creates_one_diag. unfold exec. destruct (negb (e_read e)); [cbn; auto|].
+    apply do_creates_one_diag. destruct (p_process p && negb (e_process e)); [cbn; auto|]. apply do_writes_one_diag.
+Qed.
+
+Lemma logger_diag_do_creates : forall e ps k, In (Diag Logger) (fst (do_creates e ps k)) -> In (Diag Logger) (fst k).
+Proof.
+  induction ps as [|p ps IH]; intros k H; [exact H|]. cbn in H.
+  destruct (e_create e p).
+  - specialize (IH k). destruct (do_creates e ps k). cbn in *. destruct H as [H|H]; [discriminate|auto].
+  - cbn in H. destruct H as [H|[]]. discriminate.
+  - destruct H.
+Qed.
+Lemma logger_diag_do_writes : forall e ws, ~ In (Diag Logger) (fst (do_writes e ws)).
+Proof.
+  induction ws as [|[w r] ws IH]; [intros []|]. cbn.
+  destruct (e_write e w r).
+  - destruct (do_writes e ws). cbn in *. intros [H|H]; [discriminate|auto].
+  - cbn. intros [H|[H|[]]]; discriminate.
+  - cbn. intros [H|[]]; discriminate.
+Qed.
+
+(* the logger's fatal message has exactly three causes: main's own rejection of --pretty / --brief, a dump that does not
+   read, a dump that does not process *)
+Lemma logger_diag_cause : forall f e, In (Diag Logger) (fst (run f e)) ->
+  (exists r, decide f = Rejected r /\ r <> UsageConflict) \/
+  (exists p, decide f = Plan p /\ (e_read e = false \/ (e_read e = true /\ p_process p = true /\ e_process e = false))).
+Proof.
+  intros f e H. unfold run in H. destruct (decide f) as [r| |p] eqn:Ed.
+  - destruct r; [cbn in H; destruct H as [H|[]]; discriminate| |]; left; eexists; split; try reflexivity; discriminate.
+  - apply logger_diag_do_creates in H. destruct (e_write e Stdout HelpDoc); cbn in H;
+      repeat (destruct H as [H|H]; try discriminate); destruct H.
+  - right. exists p. split; [reflexivity|]. apply logger_diag_do_creates in H. unfold exec in H.
+    destruct (e_read e); cbn in H; [|left; reflexivity]. right. split; [reflexivity|].
+    apply logger_diag_do_creates in H.
+    destruct (p_process p); destruct (e_process e); cbn in H; auto;
+      exfalso; eapply logger_diag_do_writes; eauto.
+Qed.
